@@ -576,12 +576,13 @@ def run(prop, tier):
     proof = C.proof_step(PROPS[prop] + ["Conc/MonitorProofs.v"] if False else PROPS[prop])
     C.import_auditok()
     tie = None
-    if prop == "C13":
-        from ..py2coq import misctie
-        tie = misctie.tie_group("savers")
-        proof["tie_obligations"] = tie["obligations"]
-        if not tie["ok"]:
-            proof["undischarged"] = tie["obligations"]
+    from ..py2coq import misctie
+    ties = [misctie.tie_group("loops")] + ([misctie.tie_group("savers")] if prop == "C13" else [])
+    proof["tie_obligations"] = sum((t["obligations"] for t in ties), [])
+    bad_ties = [t for t in ties if not t["ok"]]
+    if bad_ties:
+        proof["undischarged"] = sum((t["obligations"] for t in bad_ties), [])
+    tie = {"ok": not bad_ties, "detail": " | ".join(t["detail"] for t in (bad_ties or ties)), "obligations": proof["tie_obligations"]}
     quick = tier == "quick"
     r = C.rng(prop)
     scen = []
